@@ -28,7 +28,7 @@ class SelectResults(object):
         ops['dbOrderBy'] = orderBy
         if 'connection' in ops and ops['connection'] is None:
             del ops['connection']
-        if ops.get('limit', None):
+        if ops.get('limit', None) is not None:
             assert not ops.get('start', None) and not ops.get('end', None), \
                 "'limit' cannot be used with 'start' or 'end'"
             ops["start"] = 0
